@@ -88,6 +88,8 @@ def cases(draw):
         p["regularization"] = draw(st.booleans())
         p["width"] = draw(st.lists(st.integers(0, 3), min_size=4, max_size=4))
         p["suffix"] = draw(st.sampled_from(["", "x"]))
+        # the ambiguity band is named by its own indicator, which need not be the interval one
+        p["suffix_amb"] = draw(st.sampled_from(["same", "same", "", "y"]))
     return p
 
 
@@ -145,13 +147,20 @@ def body(ctx: Ctx, p: dict) -> None:
         lo = base - np.float32(w[0]) - (np.arange(nx)[None, :] % (w[1] + 1)).astype(np.float32)
         hi = base + np.float32(w[2]) + (np.arange(ny)[:, None] % (w[3] + 1)).astype(np.float32)
         amb = (((np.arange(ny)[:, None] * 3 + np.arange(nx)[None, :]) % 7) / 7.0).astype(np.float32)
+        amb_ind = p["suffix"] if p.get("suffix_amb", "same") == "same" else p["suffix_amb"]
+        sfx_a = ("." + amb_ind) if amb_ind else ""
         conf = {
-            "confidence_from_ambiguity" + sfx: amb,
+            "confidence_from_ambiguity" + sfx_a: amb,
             "confidence_from_interval_bounds_inf" + sfx: lo,
             "confidence_from_interval_bounds_sup" + sfx: hi,
         }
+        decoys = {}
+        if sfx:
+            # bands of another interval step (no suffix): not the ones the filter was pointed at
+            decoys = {"confidence_from_interval_bounds_inf": lo - np.float32(50), "confidence_from_interval_bounds_sup": hi + np.float32(50)}
+            conf.update(decoys)
         cfg = {"filter_method": method, "filter_size": p["filter_size"], "regularization": p["regularization"],
-               "interval_indicator": p["suffix"], "ambiguity_indicator": p["suffix"]}
+               "interval_indicator": p["suffix"], "ambiguity_indicator": amb_ind}
     elif method == "median":
         cfg = {"filter_method": method, "filter_size": p["filter_size"]}
     else:
@@ -207,9 +216,13 @@ def body(ctx: Ctx, p: dict) -> None:
                     ctx.violation(sig, f"band {name} at {(int(r), int(c))}: got {g[r, c]} expected {exp[r, c]} "
                                        f"fs={p['filter_size']} shape={(ny, nx)}")
                 changed = changed or bool((~close(exp, band)).any())
-            g = ds["confidence_measure"].sel(indicator="confidence_from_ambiguity" + sfx).data
+            g = ds["confidence_measure"].sel(indicator="confidence_from_ambiguity" + sfx_a).data
             if not np.array_equal(g, amb, equal_nan=True):
                 ctx.violation("C10/other-band-changed", "ambiguity band modified by median_for_intervals")
+        for dname, dband in decoys.items():
+            g = ds["confidence_measure"].sel(indicator=dname).data
+            if not np.array_equal(g, dband, equal_nan=True):
+                ctx.violation("C10/other-band-changed", f"{dname} (not the band named by interval_indicator={p['suffix']!r}) modified")
         rr = p["filter_size"] // 2
     elif method == "median":
         fs = p["filter_size"]
@@ -314,6 +327,8 @@ def body(ctx: Ctx, p: dict) -> None:
         classes.append("even-bilateral-window")
     if p.get("layout", "C") != "C":
         classes.append("map-not-row-major")
+    if method == "median_for_intervals" and p.get("suffix_amb", "same") != "same" and p["suffix_amb"] != p["suffix"]:
+        classes.append("interval-and-ambiguity-indicators-differ")
     ctx.case(p, nontrivial=bool(has_inv_in_window and changed), classes=classes)
 
 
